@@ -958,53 +958,65 @@ func ruleRangeDetails(r *Run) {
 	if bs == nil {
 		oc.Fail("-", "function not found")
 	} else {
-		// tag: string-typed load of unwrap.Op compared with constants
+		// tag: a string value compared with the conversion names, in buildSampleExtractor or a helper of it
 		var tag ssa.Value
-		allInstrs(bs, func(in ssa.Instruction) {
-			if b, ok := in.(*ssa.BinOp); ok && b.Op == token.EQL {
-				if s, ok := constStr(b.Y); ok && (s == "bytes" || s == "duration" || s == "") {
-					if f, _, ok := loadOfField(b.X); ok && f == "Op" {
-						tag = b.X
+		var df *ssa.Function
+		for _, gf := range funcGroup(bs) {
+			allInstrs(gf, func(in ssa.Instruction) {
+				if b, ok := in.(*ssa.BinOp); ok && b.Op == token.EQL {
+					if s, ok := constStr(b.Y); ok && (s == "bytes" || s == "duration" || s == "duration_seconds") && isStringType(b.X.Type()) {
+						tag, df = b.X, gf
 					}
 				}
-			}
-		})
+			})
+		}
 		if tag == nil {
-			oc.Undecide(r.pos(bs.Pos()), "no dispatch on unwrap.Op")
+			oc.Undecide(r.pos(bs.Pos()), "no dispatch on the unwrap conversion name")
 		} else {
 			want := map[string]string{"": "ParseFloat", "bytes": "convertBytes", "duration": "convertDuration", "duration_seconds": "convertDuration"}
 			bad := false
+			classify := func(v ssa.Value) string {
+				d := describe(v, 0)
+				if f := funcOfValue(v); f != nil {
+					for _, c := range callsIn(f) {
+						if callIs(c, "strconv", "ParseFloat") {
+							return "ParseFloat"
+						}
+					}
+				}
+				switch {
+				case strings.Contains(d, "convertBytes"):
+					return "convertBytes"
+				case strings.Contains(d, "convertDuration"):
+					return "convertDuration"
+				}
+				return d
+			}
 			for sp, w0 := range want {
 				assume := map[ssa.Value]constant.Value{}
-				for _, t := range equivLoads(bs, tag) {
+				for _, t := range equivLoads(df, tag) {
 					assume[t] = constant.MakeString(sp)
 				}
-				w := &feWalker{Fn: bs, Assume: assume, MaxPath: 20000}
+				w := &feWalker{Fn: df, Assume: assume, MaxPath: 20000}
 				got := map[string]bool{}
 				for _, e := range w.Run() {
+					if isErr, known := endReturnsError(e); known && isErr {
+						continue
+					}
+					found := false
 					for _, st := range e.State.stores {
 						if n, _, ok := fieldNameOf(st.Store.Addr); ok && n == "converter" {
-							d := describe(st.Val.V, 0)
-							if f := funcOfValue(st.Val.V); f != nil {
-								for _, c := range callsIn(f) {
-									if callIs(c, "strconv", "ParseFloat") {
-										d = "ParseFloat"
-									}
-								}
-								if strings.Contains(d, "convertBytes") {
-									d = "convertBytes"
-								}
-								if strings.Contains(d, "convertDuration") {
-									d = "convertDuration"
-								}
-							}
-							got[d] = true
+							got[classify(st.Val.V)] = true
+							found = true
 						}
+					}
+					if !found && df != bs && len(e.Results) > 0 {
+						got[classify(e.Results[0].V)] = true
 					}
 				}
 				if g := joinSet(got); g != w0 {
 					bad = true
-					oc.Fail(r.pos(bs.Pos()), "unwrap conversion %q uses %q, expected %s", sp, g, w0)
+					oc.Fail(r.pos(df.Pos()), "unwrap conversion %q uses %q, expected %s", sp, g, w0)
 				}
 			}
 			// spellings exist in the lexer table for the conversion tokens
